@@ -130,6 +130,17 @@ CHECKS = {
         design_ref="DESIGN.md 7/C14",
         note="TLC; non-negative bounds; call sites are covered by the cluster properties",
         technique="TLA+ clause spec + algorithm model (TLC exhaustive); real outputs validated by TLC"),
+    "C15": dict(
+        category="model_checking",
+        text="DcsContract.tla is the sequential contract of the coordination layer (result and effect of every data operation as "
+             "a function of the tree with ephemeral owners). Real zkDCS clients (1-3) run random histories of the operations "
+             "over a small key space in many spellings against the wire-level fake ZooKeeper, interleaved with garbage "
+             "written out of band, session expiry, cuts longer than the session timeout and process restarts; TLC replays "
+             "every history through the contract (DcsTrace.tla) and judges each result, returned value, child list and the "
+             "server-side tree snapshot (presence and ephemeral kind).",
+        design_ref="DESIGN.md 7/C15",
+        note="E7 (session expiry after exactly the timeout); operations issued while connected",
+        technique="TLA+ sequential contract + TLC trace validation of histories executed by the real zkDCS on a wire-level fake"),
     "C16": dict(
         category="model_checking",
         text="Cascade.tla defines the resolution (Resolve) and its clauses; the real findBestStreamFrom is evaluated on every "
